@@ -427,6 +427,7 @@ type FuncContract struct {
 	PkgPath   string
 	Names     []string // optional explicit parameter names (receiver first)
 	Requires  []*Clause
+	RequiresLocked []*Clause
 	Ensures   []*Clause
 	Invs      map[int][]*Clause
 	Modifies  []ModItem
@@ -484,7 +485,7 @@ func newContractSet() *ContractSet {
 }
 
 var clauseKeywords = map[string]bool{
-	"func": true, "extern": true, "requires": true, "ensures": true, "modifies": true, "nopanic": true,
+	"func": true, "extern": true, "requires": true, "requires_locked": true, "ensures": true, "modifies": true, "nopanic": true,
 	"loop": true, "specfunc": true, "ghost": true, "lockinv": true, "axiom": true, "trusted": true,
 	"pure": true, "inline": true, "held": true, "assert": true, "package": true, "invariant": true,
 }
@@ -584,7 +585,7 @@ func (cs *ContractSet) parseContractText(file, pkgPath string, lines []string, l
 				return fmt.Errorf("%s:%d: duplicate contract for %s", file, it.line, full)
 			}
 			cs.Funcs[full] = cur
-		case "requires", "ensures":
+		case "requires", "ensures", "requires_locked":
 			if cur == nil {
 				return fmt.Errorf("%s:%d: %s outside func", file, it.line, kw)
 			}
@@ -592,9 +593,14 @@ func (cs *ContractSet) parseContractText(file, pkgPath string, lines []string, l
 			if err != nil {
 				return err
 			}
-			if kw == "requires" {
+			switch kw {
+			case "requires":
 				cur.Requires = append(cur.Requires, c)
-			} else {
+			case "requires_locked":
+				// a precondition on lock-guarded state that the environment keeps stable between the
+				// call and the acquisition of the lock (a rely; listed as an assumption in the evidence)
+				cur.RequiresLocked = append(cur.RequiresLocked, c)
+			default:
 				cur.Ensures = append(cur.Ensures, c)
 			}
 		case "invariant":
